@@ -192,6 +192,14 @@ def entity_table():
         f.add_edge(1, cb.OnCurve(c, n_points=3))
         return f
 
+    def sketch_shared_curve():
+        # the lower edges of two faces in a row lie on ONE curve (consecutive edges on one curve: the normal use of OnCurve)
+        curve = cb.LinearInterpolatedCurve([[0, 0, 0], [0.5, -0.2, 0], [1, -0.3, 0], [1.5, -0.2, 0], [2, 0, 0]])
+        sk = cb.MappedSketch([[0, 0, 0], [1, -0.3, 0], [2, 0, 0], [2, 1, 0], [1, 1, 0], [0, 1, 0]], [[0, 1, 4, 5], [1, 2, 3, 4]])
+        for face in sk.faces:
+            face.add_edge(0, cb.OnCurve(curve, n_points=3))
+        return sk
+
     def face_shared_origin():
         o = cb.Origin([0.5, 0.5, 0.0])
         return cb.Face([[0, 0, 0], [1, 0, 0], [1, 1, 0], [0, 1, 0]], [o, None, o, None])
@@ -215,6 +223,8 @@ def entity_table():
         "FaceSharedOrigin": ("face", face_shared_origin),
         "FaceSharedCurve": ("face", face_shared_curve),
         "ExtrudeSharedCurve": ("additive", lambda: cb.Extrude(face_shared_curve(), [0.1, 0.0, 0.5])),
+        "SketchSharedCurve": ("sketch", sketch_shared_curve),
+        "ExtrudedShapeSharedCurve": ("additive", lambda: cb.ExtrudedShape(sketch_shared_curve(), [0.1, 0.0, 1.0])),
         "Box": ("additive", lambda: cb.Box([0.1, 0.2, 0.3], [1.1, 0.9, 1.5])),
         "Grid": ("sketch", lambda: cb.Grid([0, 0, 0], [2, 1, 0], 2, 1)),
         "OneCoreDisk": ("sketch", lambda: cb.OneCoreDisk([0.2, 0.1, 0.0], [1.2, 0.1, 0.0], [0, 0, 1])),
@@ -264,7 +274,7 @@ def entity_table():
     return ent
 
 
-CHEAP = ["Point", "Face", "FaceAngle", "LoftSharedAngle", "LoftSharedAcrossFaces", "FaceSharedCurve", "ExtrudeSharedCurve", "FaceSharedOrigin", "DiscreteCurve", "LinearInterpolatedCurve", "SplineInterpolatedCurve", "LineCurve", "CircleCurve", "LoftEdges", "Extrude", "Revolve", "Wedge", "OnCurveLoft", "Box", "Grid", "OneCoreDisk", "RevolvedShape", "ArcData", "OriginData", "AngleData", "SplineData", "PolyLineData", "OnCurveData"]
+CHEAP = ["Point", "Face", "FaceAngle", "LoftSharedAngle", "LoftSharedAcrossFaces", "FaceSharedCurve", "ExtrudeSharedCurve", "SketchSharedCurve", "FaceSharedOrigin", "DiscreteCurve", "LinearInterpolatedCurve", "SplineInterpolatedCurve", "LineCurve", "CircleCurve", "LoftEdges", "Extrude", "Revolve", "Wedge", "OnCurveLoft", "Box", "Grid", "OneCoreDisk", "RevolvedShape", "ArcData", "OriginData", "AngleData", "SplineData", "PolyLineData", "OnCurveData"]
 
 
 def cases(tier, seed):
@@ -432,6 +442,12 @@ def geometry(entity, kind):
                     edges.append((e.kind, a, b, np.array(e.curve.discretize())))
                 elif e.kind == "angle":
                     edges.append(("angle", a, b, (e.angle, np.array(e.axis.components))))
+                elif e.kind == "curve":
+                    try:
+                        cp = np.array(e.curve.discretize(count=9))
+                    except TypeError:
+                        cp = np.array(e.curve.discretize())
+                    edges.append(("curve", a, b, cp))
         return {"points": np.array(pts), "edges": edges, "wires": []}
     # additive: assemble in a fresh mesh
     mesh = cb.Mesh()
